@@ -213,9 +213,12 @@ Expand(cf, st, c, op) ==
     [] op.m = "withdrawReward"  -> <<NMsg("withdraw", c, op.v, "-", 0)>>
     [] op.m = "withdrawRewards" -> WithdrawMsgs(cf, st, c)
     [] op.m = "transfer"        ->
-         \* the method's own precondition: recipient = caller and the balance after claiming the rewards that
-         \* withdrawRewards() claims covers the amount (a reward below minW on the picked validator does not count,
-         \* although MsgDelegate would settle it first: found by RouteIndependent, see notes/staking.md)
+         \* transfer(self, a) = "claim what withdrawRewards() claims, THEN delegate a out of the balance after the
+         \* claims": the plain composition, so a delegation may be funded by the rewards the same call claims
+         \* (liquid < a <= liquid + claimable succeeds on both routes).  The method's own precondition is evaluated
+         \* on that post-claim balance.  Only exactness note: a reward BELOW minW on the picked validator is not
+         \* claimed and does not count, although MsgDelegate's hook would settle it first (found by RouteIndependent,
+         \* see notes/staking.md) - in that dust case nothing corresponds and the call is refused.
          IF op.to # c \/ op.amt < 1 \/ WithdrawEach(st, c, WithdrawSeq(cf, st, c), <<>>).st.bal[c] < op.amt THEN <<>>
          ELSE WithdrawMsgs(cf, st, c) \o <<NMsg("delegate", c, Pick(cf, st, c), "-", op.amt)>>
     [] op.m = "delegateByMsg"   ->
